@@ -664,7 +664,8 @@ class SFA(_PanelToPanelTransformer):
 
         r_window_length = 1 / window_size
         mean = series_sum * r_window_length
-        buf = math.sqrt(square_sum * r_window_length - mean * mean)
+        # rounding can leave a (tiny) negative variance for a window at a large level
+        buf = math.sqrt(max(square_sum * r_window_length - mean * mean, 0.0))
         stds[0] = buf if buf > 1e-8 else 1
 
         for w in range(1, end):
@@ -674,7 +675,7 @@ class SFA(_PanelToPanelTransformer):
                 series[w + window_size - 1] * series[w + window_size - 1]
                 - series[w - 1] * series[w - 1]
             )
-            buf = math.sqrt(square_sum * r_window_length - mean * mean)
+            buf = math.sqrt(max(square_sum * r_window_length - mean * mean, 0.0))
             stds[w] = buf if buf > 1e-8 else 1
 
         return stds
